@@ -769,4 +769,20 @@ theorem C18_window_checks (k : Checker) (gs gh : Int) (t : Timed) (ci a b : Int)
 example : tickInstants 10 4 11 22 = [14, 18, 22] ∧ tickInstants 10 4 14 17 = [] ∧ tickInstants 0 1000 1500 3000 = [2000, 3000] := by decide
 
 
+
+/-- **the context does not matter**: a start / shutdown with a cancelled or expired context has exactly the effect of one
+with a live context, on every state (a fact the model *states* — `Start`/`Shutdown` do not look at their context — and
+the differential backs: the ref-count, processor, extension and stress harnesses pass live, cancelled and expired contexts) -/
+theorem C18_context_irrelevant (k : Checker) (gs gh : Int) (s : Sys) (c : Ctx) :
+    s.stepC k gs gh (.shutdown c) = s.stepC k gs gh (.shutdown .live) ∧
+    s.stepC k gs gh (.start c) = s.stepC k gs gh (.start .live) := ⟨rfl, rfl⟩
+
+/-- hence "until the last user has shut down and then stops" holds whatever contexts the users leave with: after any
+sequence of context-carrying labels, a tick reaches `CheckMemLimits` iff starts − accepted shutdowns > 0 -/
+theorem C18_loop_tick_any_context (k : Checker) (gs gh : Int) (ls : List LblC) :
+    (Sys.run k gs gh {} (ls.map LblC.erase)).rc.checking = true ↔ 0 < usersL (ls.map LblC.erase) :=
+  Sys.checking_iff k gs gh _
+
+example : usersL ([LblC.start .live, .start .expired, .shutdown .cancelled, .shutdown .expired].map LblC.erase) = 0 := by decide
+
 end OtelVerif.C18
